@@ -288,6 +288,10 @@ fn write_entry(
     }).collect::<WriteResult<Vec<_>>>()?;
 
     let mut texture_offset = 0;
+    if entry.texture_data.is_some() && entry.path.starts_with("@") {
+        // (read_entry treats this combination as a corrupt file)
+        return Err(emitter.emit(error!("virtual file '{}' cannot have image data; it needs 'has_data: false'", entry.path)));
+    }
     if let Some(texture_data) = &entry.texture_data {
         let texture_metadata = entry.texture_metadata.as_ref().expect("always Some if texture_data is");
         texture_offset = w.pos()? - entry_pos;
